@@ -23,7 +23,7 @@ def units(tier, seed):
         if u["variant"] in ("plain", "sess1", "decrypt", "encrypted"):
             us.append(dict(u, seed=seed, tier=tier, mode="wf", root_path="capture.entry[3].msg", label=u["label"] + "@root"))
     us.append({"kind": "bytes", "mode": "bytes", "label": "all-byte-values", "seed": seed, "tier": tier})
-    for u in cases.fault_units(tier, seed, with_prims=False):
+    for u in cases.fault_units(tier, seed, with_prims=False, thorough_budget=60, two_pairs_all=False):
         u["seed"], u["tier"], u["mode"] = seed, tier, "faults"
         u["label"] = "faults:" + u["label"]
         u["value_valid"] = False
